@@ -49,8 +49,10 @@ Proof. exact motor_demo_agrees. Qed.
 Print Assumptions C04_motor_guard_inhabited.
 
 (* C04_motor_partial: device = host for ALL motor commands (set_speed, backward, stop, coast, invert, ramp, run_for, the four
-   getters) and all histories inside the guard motor_guard_flags: speeds numbers within -1..1, durations numbers >= 0 (speeds of
-   any magnitude: the former conjunct "no applied speed with 0 < |x| < 1/510" is gone with the repair).  Then the firmware's
+   getters) and all histories inside the guard motor_guard_flags: speeds numbers of ANY value - also outside -1..1, where the host
+   clamps the argument first (for ramp: the target, BEFORE the 20 interpolation steps) and the firmware must produce the host's
+   sequence - durations numbers >= 0 (speeds of any magnitude: the former conjunct "no applied speed with 0 < |x| < 1/510" is gone
+   with the repair).  Then the firmware's
    digitalWrite / analogWrite / delay events ARE, event by event, the host's level signal on the three pins - direction pins from
    the sign of the applied speed (brake: both HIGH), duty = the PWM count nearest to 255*|applied| (C04_motor_duty_nearest: within
    half a count, the statement allows one), each host sleep q as delay(trunc q) (C04_motor_delay_within_1ms) - every getter
@@ -76,3 +78,42 @@ Theorem C04_motor_sleeps_nonneg : forall m o, motor_in_range m o = true ->
   Forall (fun q => (0 <= q)%Q) (sleeps (mevents (mstep m o))).
 Proof. exact motor_sleeps_nonneg. Qed.
 Print Assumptions C04_motor_sleeps_nonneg.
+
+(* ---- out-of-range speeds (clamp clause: "clamped on the device to the documented limits") ---- *)
+
+(* the guard places no condition on the value of a speed: every number is inside it *)
+Theorem C04_motor_guard_accepts_every_speed : forall m v t d,
+  num_ok v = true -> num_ok t = true -> dur_ok d = true ->
+  motor_in_range m (MSetSpeed v) = true /\ motor_in_range m (MBackward (Some v)) = true /\
+  motor_in_range m (MRamp t d) = true /\ motor_in_range m (MRunFor d v) = true.
+Proof. exact motor_guard_any_speed. Qed.
+Print Assumptions C04_motor_guard_accepts_every_speed.
+
+(* on the device a command with an out-of-range speed IS the command with the documented limit: same events, same state, same
+   getters - for set_speed, backward, run_for and, for ramp, all 20 interpolation steps (the target is clamped before interpolating) *)
+Theorem C04_motor_out_of_range_is_the_limit : forall p d v t du,
+  dmstep p d (MSetSpeed (PF v)) = dmstep p d (MSetSpeed (PF (clampq v))) /\
+  dmstep p d (MBackward (Some (PF v))) = dmstep p d (MBackward (Some (PF (clampq v)))) /\
+  dmstep p d (MRunFor du (PF v)) = dmstep p d (MRunFor du (PF (clampq v))) /\
+  dmstep p d (MRamp (PF t) du) = dmstep p d (MRamp (PF (clampq t)) du).
+Proof. exact motor_out_of_range_is_limit. Qed.
+Print Assumptions C04_motor_out_of_range_is_the_limit.
+
+(* non-vacuity: a history whose speeds are all OUTSIDE -1..1 (set_speed(1/4) apart) is inside the guard and the two sides agree:
+   ramp(2.0, 200) from 0.25, ramp(-3.0, 100) from 1.0 (direction flips at step 10), backward(300), run_for(20, -2), invert *)
+Example C04_motor_out_of_range_guard_inhabited :
+  forallb (fun b => b) (motor_guard_flags (m0 (4, 5, 6)%Z) out_ops) = true /\
+  map dconv (fst (dmrun (4, 5, 6)%Z dminit out_ops)) = fst (fst (hmrun (4, 5, 6)%Z (m0 (4, 5, 6)%Z) out_ops)) /\
+  snd (fst (hmrun (4, 5, 6)%Z (m0 (4, 5, 6)%Z) out_ops)) = snd (dmrun (4, 5, 6)%Z dminit out_ops).
+Proof. exact motor_out_ops_agree. Qed.
+Print Assumptions C04_motor_out_of_range_guard_inhabited.
+
+(* what the clamp-before-interpolating order means, on the witness the independent testers used: ramp(2.0, d) from 0.2 writes the
+   enable duties 61, 71, 82, ... (20 distinct steps up to 255), not 74, 97, 120, ... saturating after 8 steps *)
+Example C04_motor_ramp_clamps_target_first :
+  map (fun e => match e with EAW _ v => v | _ => (-1)%Z end)
+      (filter (fun e => match e with EAW _ _ => true | _ => false end)
+              (fst (dmrun (4, 5, 6)%Z dminit [MSetSpeed (PF (1 # 5)); MRamp (PI 2) (PI 0)]))) =
+  [51; 61; 71; 82; 92; 102; 112; 122; 133; 143; 153; 163; 173; 184; 194; 204; 214; 224; 235; 245; 255]%Z.
+Proof. exact motor_ramp_clamps_first. Qed.
+Print Assumptions C04_motor_ramp_clamps_target_first.
